@@ -6,4 +6,11 @@ PROPS = {
         "text": "For the 9 mini-protocols of the original stack and both roles (17 agents), the MIR of has_agency, assert_agency_is_ours/theirs, assert_outbound_state and assert_inbound_state is regenerated from /repo's working tree and executed symbolically on an arbitrary (state, message) pair; the solver shows that `accepts to send` and `accepts to receive` coincide with the transition relation of the Ouroboros specification tables (spec/n2_protocols.json) for every pair -- guard tables only, complete over the finite discriminant space.",
         "note": "Not decided: the state *updates* performed inside the async send_*/recv_* methods (coroutine bodies behind tokio channels), so `ends in the prescribed state` is outside the claim; message payloads play no role in the guards. Trusted: the hand-transcribed specification tables, the MIR text of the nightly compiler as a faithful rendering of the code, the variant tables read from derived Debug impls, mirsym's interpreter (validated at setup against native runs).",
     },
+    "C39": {
+        "m": ["c39"],
+        "level": "model_checking",
+        "technique": "symbolic execution of the rustc MIR of validate_txs into SMT (opaque certificate state, uninterpreted validate_tx with havocked &mut argument, bounded loop unrolling), decided by z3 and cross-checked by cvc5",
+        "text": "The MIR of pallas_validate::phase1::validate_txs (regenerated from /repo on every run) is executed symbolically with an opaque CertState and an uninterpreted validate_tx that may do anything to the delta state it is handed: on every path that returns Err the caller's certificate state is the entry value, on every path that returns Ok it is the delta state left by the last validate_tx call, and each call receives the delta state left by the previous one (initially a clone of the entry state). Bounded by the loop unrolling (quick: success after 0..3 / failure at 1..4 transactions; thorough: 0..6 / 1..7).",
+        "note": "Outside: what validate_tx does to the state (any effect is allowed), panics inside callees. Trusted: Clone::clone returns an equal value; core's Try/FromResidual for Result; the MIR text; mirsym's interpreter.",
+    },
 }
